@@ -48,12 +48,39 @@ def _len_of(f, operand, callee_pat):
     if p is None:
         return None
     c = f.call_defining(p["l"])
-    if c is None or not c.matches(r"slice::<impl \[u8\]>::len$|<impl \[T\]>::len$|::len$"):
-        return None
-    inner = f.call_defining(op_place(c.args[0])["l"]) if op_place(c.args[0]) else None
-    if inner is None or not inner.matches(callee_pat):
-        return None
-    return inner
+    if c is not None and c.matches(r"slice::<impl \[u8\]>::len$|<impl \[T\]>::len$|::len$"):
+        inner = f.call_defining(op_place(c.args[0])["l"]) if op_place(c.args[0]) else None
+        if inner is not None and inner.matches(callee_pat):
+            return inner
+    # the length travelled (through a helper's return value, an Ok(n) payload, a tuple ...): follow the value - but only
+    # through moves, wrappers and projections: any arithmetic on the way disqualifies it
+    seen, work = set(), [p["l"]]
+    while work:
+        l = work.pop()
+        if l in seen or len(seen) > 60:
+            continue
+        seen.add(l)
+        for d in f.defs(l):
+            if d[0] != "stmt":
+                continue
+            r = d[3]["r"]
+            if r["k"] in ("binop", "unop"):
+                return None
+            ops_ = [r.get("o")] if r.get("o") else (r.get("ops") or [])
+            for o in ops_:
+                q = op_place(o) if o else None
+                if q is not None:
+                    work.append(q["l"])
+            if r["k"] in ("ref", "copyderef") and r.get("p"):
+                work.append(r["p"]["l"])
+    rr = f.roots(operand, through_calls=True)
+    lens = [r.site for r in rr if r.kind == "call" and r.site.matches(r"slice::<impl \[u8\]>::len$|<impl \[T\]>::len$")]
+    fills = [r.site for r in rr if r.kind == "call" and r.site.matches(callee_pat)]
+    others = [r for r in rr if r.kind == "call" and r.site not in lens and r.site not in fills and
+              not r.site.matches(r"::uninit$|::unfilled_mut$|::as_mut$|::unfilled$|Pin|project|poll_read$|::branch$|from_residual$")]
+    if len(lens) == 1 and len(fills) == 1 and any(q.kind == "call" and q.site.bb == fills[0].bb for q in f.roots(lens[0].args[0])):
+        return fills[0]
+    return None
 
 
 def _outcomes_forwarded(ctx, f, label, inner):
